@@ -21,6 +21,9 @@ func vIxKeys(id int) []string {
 	if id == 17 || id == 18 {
 		return vFullByteFan(id == 18)
 	}
+	if id == 23 || id == 24 {
+		return vPrefixLowByte(id == 24)
+	}
 	if id >= 100 {
 		return vSweep(id - 100)
 	}
@@ -36,6 +39,26 @@ func vIxKeys(id int) []string {
 	return vUniqSorted(ks)
 }
 
+
+// vPrefixLowByte: under eight first bytes, a key K of 9, 10, 15, 17, 25, 33, 41 or 63 bytes that
+// is a proper prefix of the key(s) after it, which continue with a byte below 0x10 (a
+// separator): pairs {K, K+0x05}, or triples {K, K+"\x00email", K+"\x00name"}.
+func vPrefixLowByte(triples bool) []string {
+	base := make([]byte, 64)
+	for i := range base {
+		base[i] = byte('a' + (i*7+i/13)%23)
+	}
+	var ks []string
+	for i, l := range []int{9, 10, 15, 17, 25, 33, 41, 63} {
+		k := string(append([]byte{byte('A' + i)}, base[:l-1]...))
+		if triples {
+			ks = append(ks, k, k+"\x00email", k+"\x00name")
+		} else {
+			ks = append(ks, k, k+"\x05")
+		}
+	}
+	return ks
+}
 
 // vFullByteFan: the 256 one-byte keys 0x00..0xff, two of them extended (so the root is not the
 // only inner node), optionally with the empty key.
